@@ -369,6 +369,32 @@ func runC04(w *World, tier string) (bool, interface{}) {
 		wrongOK++
 	}
 	w.Stats.ProbeN("wrong-passwords-tried", wrongOK)
+	// the production start sequence (cmd/airgapped: NewMachine, SetEncryptionKey,
+	// InitKeys) on a copy of the initialised database with a wrong password: it
+	// must not end with the operator's private key loaded
+	var realPriv []byte
+	for _, s := range secs {
+		if s.name == "long-term-private-key" {
+			realPriv = s.val
+		}
+	}
+	cp := dir + "_wrongpw"
+	if err := copyDir(dir, cp); err == nil && len(realPriv) > 0 {
+		if m, err := airgapped.NewMachine(cp); err == nil {
+			m.SetEncryptionKey(append([]byte("cold-start-"), pw[:w.Tape.Choose(len(pw), "wrongPwLen2")]...))
+			ierr := m.InitKeys()
+			var gotPriv []byte
+			if sk := m.SimSecrets().SecKey; sk != nil {
+				gotPriv, _ = sk.MarshalBinary()
+			}
+			if ierr == nil && bytes.Equal(gotPriv, realPriv) {
+				w.Fail("C04", "private-key-available-after-start-with-wrong-password", fmt.Sprintf("machine %d: NewMachine+SetEncryptionKey+InitKeys with a wrong password on the initialised database succeeded and the machine holds the operator's long-term private key", victim))
+			}
+			w.Stats.Probe("cold-start-with-wrong-password")
+			_ = m.SimClose()
+		}
+	}
+	_ = os.RemoveAll(cp)
 	return true, map[string]interface{}{"n": n, "tA": t, "tB": tB, "round_b_list": listKind, "interleaved": interleaved, "outputs_scanned": len(outputs), "blobs": len(blobs), "secrets": nsecrets, "deal_foreign_key_pairs": deals}
 }
 
